@@ -33,6 +33,7 @@ var netRewrite = map[string]string{
 	"ResolveTCPAddr": "ResolveTCPAddr",
 	"ResolveUDPAddr": "ResolveUDPAddr",
 	"ResolveIPAddr":  "ResolveIPAddr",
+	"Dialer":         "Dialer", // the type: simrt.Dialer has Timeout, Deadline and Dial
 }
 
 var tlsRewrite = map[string]string{
